@@ -22,10 +22,10 @@ func init() {
 		ID:    "C08",
 		Level: "fault_enumeration",
 		Rule: "case = one valid encoding E (either variant, any producer store kind and layout, mapping embedded or omitted) on which faults are injected at the API boundary: EVERY cut E[:c], 0<=c<=|E|; at every block boundary the flag byte replaced by undefined flags (quick: 16 sampled per boundary, thorough: all of them; quadratic/quartic mapping flags count as unsupported); " +
-			"a receiver with a different mapping (other kind / accuracy / offset); mapping omitted and none supplied; each decoded by DecodeDDSketch, DecodeDDSketchWithExactSummaryStatistics and DecodeAndMergeWith into rotating store kinds, fresh and non-empty receivers. Oracle (block boundaries from the independent parser): cut strictly inside a block -> error, no panic; " +
+			"a receiver with a different mapping (other kind / accuracy / offset); mapping omitted and none supplied; each decoded by DecodeDDSketch, DecodeDDSketchWithExactSummaryStatistics and DecodeAndMergeWith into rotating store kinds, fresh, non-empty and used-then-cleared receivers. Oracle (block boundaries from the independent parser): cut strictly inside a block -> error, no panic; " +
 			"cut at a boundary -> success iff a mapping is available, with exactly the content of the complete blocks; undefined flag / mismatch / missing mapping -> error, no panic. Non-trivial = encoding with >=2 store blocks or >=3 block types; distinct = hash of E.",
 		Cases:     core.Scale(40000, 400000),
-		Mandatory: []string{"fault.cut_inside_block", "fault.cut_at_boundary", "fault.flag_substitution", "fault.mapping_mismatch", "fault.missing_mapping", "cut.after_flag", "cut.between_primitives", "cut.in_varint", "cut.in_varfloat", "cut.in_float64", "decoder.exact", "decoder.plain", "receiver.nonempty", "oracle.boundary_content_checks", "source.arbitrary_weights", "cut.in_9_byte_varfloat", "cut.window_on_longer_buffer"},
+		Mandatory: []string{"fault.cut_inside_block", "fault.cut_at_boundary", "fault.flag_substitution", "fault.mapping_mismatch", "fault.missing_mapping", "cut.after_flag", "cut.between_primitives", "cut.in_varint", "cut.in_varfloat", "cut.in_float64", "decoder.exact", "decoder.plain", "receiver.nonempty", "receiver.used_then_cleared", "oracle.boundary_content_checks", "source.arbitrary_weights", "cut.in_9_byte_varfloat", "cut.window_on_longer_buffer"},
 		Assumptions: []string{
 			"block boundaries are those found by the independent parser on the complete encoding",
 			"a failed decode is not required to leave the receiver unchanged",
@@ -137,6 +137,21 @@ func runC08(c *core.Ctx) {
 		}
 		s := mon.NewSketch(exactDec, im, target)
 		md := mon.NewSketchModel(m, target)
+		if withMapping && !nonEmpty && rr.P(0.35) {
+			// a receiver that was used (over the index range of the source, so that its arrays, pages and buffers
+			// are as large as what arrives) and cleared: empty, with retained memory
+			for i, it := range A.mdl.Items {
+				if i >= 150 {
+					break
+				}
+				s.I().Add(it.V)
+			}
+			if rr.Bool() {
+				s.I().GetValueAtQuantile(0.5)
+			}
+			s.I().Clear()
+			c.Count("receiver.used_then_cleared", 1)
+		}
 		if nonEmpty && withMapping {
 			for i := 0; i < rr.Range(1, 6); i++ {
 				v := A.m.ClampIn(rr.LogUniform(0.5, 2))
